@@ -55,6 +55,15 @@ impl NdJson {
             lines: 0,
         }
     }
+    pub fn append(path: &str) -> Self {
+        NdJson {
+            w: std::io::BufWriter::new(std::fs::OpenOptions::new().create(true).append(true).open(path).expect("append output")),
+            lines: 0,
+        }
+    }
+    pub fn flush(&mut self) {
+        self.w.flush().unwrap();
+    }
     pub fn put(&mut self, v: &Value) {
         serde_json::to_writer(&mut self.w, v).unwrap();
         self.w.write_all(b"\n").unwrap();
